@@ -88,11 +88,17 @@ fn dummy_hmac_input() -> HmacGetSecretInput {
     }
 }
 
-fn descriptors(v: &Value) -> Option<Vec<webauthn::PublicKeyCredentialDescriptor>> {
+/// `tys`: optional parallel list, false = a descriptor whose `type` is not "public-key" (deserialises to Unknown)
+fn descriptors_ty(v: &Value, tys: &Value) -> Option<Vec<webauthn::PublicKeyCredentialDescriptor>> {
     v.as_array().map(|l| {
         l.iter()
-            .map(|id| webauthn::PublicKeyCredentialDescriptor {
-                ty: webauthn::PublicKeyCredentialType::PublicKey,
+            .enumerate()
+            .map(|(i, id)| webauthn::PublicKeyCredentialDescriptor {
+                ty: if tys[i].as_bool().unwrap_or(true) {
+                    webauthn::PublicKeyCredentialType::PublicKey
+                } else {
+                    webauthn::PublicKeyCredentialType::Unknown
+                },
                 id: unhex(id.as_str().unwrap()).into(),
                 transports: None,
             })
@@ -129,7 +135,7 @@ fn mc_request(q: &Value) -> make_credential::Request {
                 alg: iana::Algorithm::from_i64(a.as_i64().unwrap()).expect("known algorithm id"),
             })
             .collect(),
-        exclude_list: descriptors(&q["exclude"]),
+        exclude_list: descriptors_ty(&q["exclude"], &q["exclude_ty"]),
         extensions: if q["ext"].is_null() {
             None
         } else {
@@ -150,7 +156,7 @@ fn ga_request(q: &Value) -> get_assertion::Request {
     get_assertion::Request {
         rp_id: utf8(&q["rp_id"]),
         client_data_hash: unhex(q["cdh"].as_str().unwrap()).into(),
-        allow_list: descriptors(&q["allow"]),
+        allow_list: descriptors_ty(&q["allow"], &q["allow_ty"]),
         extensions: if q["ext"].is_null() {
             None
         } else {
@@ -319,7 +325,7 @@ fn creation_options(q: &Value) -> webauthn::CredentialCreationOptions {
                 alg: iana::Algorithm::from_i64(a.as_i64().unwrap()).expect("known algorithm id"),
             }).collect(),
             timeout: None,
-            exclude_credentials: descriptors(&q["exclude"]),
+            exclude_credentials: descriptors_ty(&q["exclude"], &q["exclude_ty"]),
             authenticator_selection: if q["selection"].is_null() { None } else {
                 let s = &q["selection"];
                 Some(webauthn::AuthenticatorSelectionCriteria {
@@ -348,7 +354,7 @@ fn request_options(q: &Value) -> webauthn::CredentialRequestOptions {
             challenge: unhex(q["challenge"].as_str().unwrap()).into(),
             timeout: None,
             rp_id: if q["rp_id"].is_null() { None } else { Some(utf8(&q["rp_id"])) },
-            allow_credentials: descriptors(&q["allow"]),
+            allow_credentials: descriptors_ty(&q["allow"], &q["allow_ty"]),
             user_verification: uv_req(&q["uv"]),
             hints: None,
             attestation: Default::default(),
